@@ -223,6 +223,40 @@ def main():
                 rep.inconclusive.append("%s: %d model witnesses (first %s) do not show on the probe queries" % (oid, len(g["bad"]), g["bad"][0]["witness"]))
         rep.obligation(oid, status, reach="sat", combinations=g["n"], holding=g["holds"], with_witness=len(g["bad"]),
                        first_witness=g["bad"][0]["witness"] if g["bad"] else None)
+    # positional predicates count along the direction of the axis (shared with C07.s.axis)
+    try:
+        import c07
+        ajobs = [("axis", (a, cand), 60) for a in ("Ancestor", "AncestorOrSelf", "Child", "Descendant", "DescendantOrSelf", "Following", "FollowingSibling",
+                                                   "Preceding", "PrecedingSibling", "Attribute") for cand in ((0, 1), (1, 0), (0, 1, 2), (2, 0, 1))]
+        with mp.Pool(min(args.jobs, len(ajobs))) as pool:
+            ares = pool.map(c07.work, ajobs, chunksize=4)
+        bad = [r for r in ares if r["status"] == "sat"]
+        for r in ares:
+            rep.queries += r["queries"]
+            rep.functions.update(r.get("fns", {}))
+            if r["status"] not in ("holds", "sat"):
+                rep.inconclusive.append("C05.s.axis-position %s: %s" % (r["job"], str(r["error"])[:200]))
+        status = "holds"
+        if bad:
+            hit = None
+            for expr, want in c07.AXIS_PROBES:
+                rr = rp.run({"op": "query", "doc": c07.AXIS_DOC, "input": expr})
+                rep.replays += 1
+                if "panic" in rr or "died" in rr or not (rr.get("ok") and rr.get("value") == want):
+                    hit = (expr, want, rr)
+                    break
+            if hit:
+                status = "violated"
+                rep.violation("C05.s.axis-position", {"op": "query", "doc": c07.AXIS_DOC, "input": hit[0], "property": "C05", "expected_value": hit[1]},
+                              "%s on %s gives %s; XPath 1.0 section 2.4 (proximity position along the axis direction) gives %r (model witness %s)" % (
+                                  hit[0], c07.AXIS_DOC, hit[2].get("value", hit[2]), hit[1], bad[0]["witness"]))
+            else:
+                status = "inconclusive"
+                rep.inconclusive.append("C05.s.axis-position: %d model witnesses (first %s) do not show on the axis probes" % (len(bad), bad[0]["witness"]))
+        rep.obligation("C05.s.axis-position", status, reach="sat", shapes=len(ajobs), with_witness=len(bad))
+        rep.bounds["axis_position"] = "10 named axes, 2-3 candidates with symbolic order keys in any order, [position() = t] for any 64-bit t"
+    except Exception as e:  # noqa
+        rep.inconclusive.append("axis position: %s: %s" % (type(e).__name__, e))
     rp.close()
     return rep.finish()
 
